@@ -16,7 +16,9 @@ import (
 	"github.com/ethereum/go-ethereum/core"
 	"github.com/ethereum/go-ethereum/eth/tracers/logger"
 
+	"github.com/functionx/fx-core/v8/contract"
 	cctypes "github.com/functionx/fx-core/v8/x/crosschain/types"
+	erc20types "github.com/functionx/fx-core/v8/x/erc20/types"
 	fxstakingtypes "github.com/functionx/fx-core/v8/x/staking/types"
 
 	"fxmc/evmasm"
@@ -36,6 +38,7 @@ type env struct {
 	m     world.Actor
 	val   sdk.ValAddress
 	claim uint64 // pending executable claim nonce
+	usdt  scen.Token // a module-owned pair; the user holds 50 as ERC-20
 }
 
 func setup() *env {
@@ -48,6 +51,14 @@ func setup() *env {
 	if r := w.CallABI(ctx, e.owner, fxstakingtypes.GetAddress(), fxstakingtypes.GetABI(), nil, 3_000_000, "delegateV2", e.val.String(), e18(100)); !r.Success() {
 		panic(r.String())
 	}
+	// the user holds a bridged ERC-20 (deposit observed and executed, then converted)
+	e.usdt = scen.RegisterModuleToken(w, ctx, "USDT", os, nonces, 1000)
+	nonces["eth"]++
+	scen.Observe(w, ctx, "eth", os["eth"], scen.SendToFxClaim("eth", nonces["eth"], 1000, e.usdt.Ext["eth"], 100, scen.ExtAddr("eth", "depositor"), e.user.Acc(), "", ""))
+	if r := w.CallABI(ctx, w.A("rel"), cctypes.GetAddress(), cctypes.GetABI(), nil, 800000, "executeClaim", "eth", new(big.Int).SetUint64(nonces["eth"])); !r.Success() {
+		panic("deposit: " + r.String())
+	}
+	w.MustDeliver(ctx, &erc20types.MsgConvertCoin{Coin: sdk.NewInt64Coin("usdt", 50), Receiver: e.user.Hex().String(), Sender: e.user.Bech()})
 	// one observed, not yet executed SendToFx claim
 	nonces["eth"]++
 	e.claim = nonces["eth"]
@@ -90,6 +101,27 @@ func cc(value *big.Int, name string, args ...interface{}) call {
 	return call{to: cctypes.GetAddress(), data: d, value: value}
 }
 
+// approve: the caller lets the precompile pull n units of the bridged ERC-20
+func approve(n int64) func(e *env, self common.Address) []call {
+	return func(e *env, _ common.Address) []call {
+		d, err := contract.GetFIP20().ABI.Pack("approve", cctypes.GetAddress(), big.NewInt(n))
+		if err != nil {
+			panic(err)
+		}
+		return []call{{to: e.usdt.ERC20, data: d}}
+	}
+}
+
+// fundERC20: the user hands the program ten units of the bridged ERC-20
+func fundERC20(e *env, ctx sdk.Context, self common.Address) {
+	if self == e.user.Hex() {
+		return
+	}
+	if r := e.w.CallABI(ctx, e.user, e.usdt.ERC20, contract.GetFIP20().ABI, nil, 300000, "transfer", self, big.NewInt(10)); !r.Success() {
+		panic("fund program: " + r.String())
+	}
+}
+
 func methods() []method {
 	var target [32]byte
 	copy(target[:], "eth")
@@ -127,6 +159,14 @@ func methods() []method {
 			return cc(big.NewInt(2), "bridgeCall", "eth", self, []common.Address{}, []*big.Int{}, common.HexToAddress(scen.ExtAddr("eth", "callee")), []byte{1}, big.NewInt(0), []byte{})
 		}, nil},
 		{"executeClaim", none, func(e *env, _ common.Address) call { return cc(nil, "executeClaim", "eth", new(big.Int).SetUint64(e.claim)) }, nil},
+		// the same methods with a bridged ERC-20 instead of the native coin: no value transfer precedes the native action
+		// in the calling frame, the token is pulled with transferFrom
+		{"crossChain(erc20)", approve(3), func(e *env, _ common.Address) call {
+			return cc(nil, "crossChain", e.usdt.ERC20, dest, big.NewInt(2), big.NewInt(1), target, "")
+		}, fundERC20},
+		{"bridgeCall(erc20)", approve(2), func(e *env, self common.Address) call {
+			return cc(nil, "bridgeCall", "eth", self, []common.Address{e.usdt.ERC20}, []*big.Int{big.NewInt(2)}, common.HexToAddress(scen.ExtAddr("eth", "callee")), []byte{1}, big.NewInt(0), []byte{})
+		}, fundERC20},
 	}
 }
 
@@ -279,6 +319,9 @@ func run(thorough bool) func(shard, shards int, deadline time.Time) *explore.Res
 				_ = intrinsic
 				logs := tr.StructLogs()
 				for _, l := range logs {
+					if l.Gas > ample {
+						continue // a step of a nested keeper-level EVM run (its own gas budget): not a point of this transaction's gas
+					}
 					used := ample - l.Gas
 					thr[used] = true
 					thr[used+l.GasCost] = true
